@@ -2,8 +2,8 @@ package main
 
 import (
 	"fmt"
-	"os"
 	"go/types"
+	"os"
 	"sort"
 	"strings"
 
@@ -140,12 +140,13 @@ func newWriteSet() *WriteSet {
 }
 
 type Executor struct {
-	u       *Unit
-	wstack  []*WriteSet
-	nframes int
-	stack   []*ssa.Function
-	entry   *State // entry state of the unit's top function (for old())
-	frame   *frameSpec
+	u          *Unit
+	wstack     []*WriteSet
+	nframes    int
+	stack      []*ssa.Function
+	entry      *State // entry state of the unit's top function (for old())
+	frame      *frameSpec
+	reachGuard string
 }
 
 func (x *Executor) recordWrite(comp string) {
